@@ -2,6 +2,7 @@ import ClusterVerif.Lemmas.C03
 import ClusterVerif.Lemmas.C03Sort
 import ClusterVerif.Lemmas.C03Pipeline
 import ClusterVerif.Lemmas.C03Block
+import ClusterVerif.Lemmas.C03Alloc
 import ClusterVerif.Model.C03Skeleton
 import ClusterVerif.Gen.C03
 
@@ -308,6 +309,219 @@ example :
       [(3, .nonNumeric), (2, .expired), (1, .valid 3), (5, .absent)] ∧
     (latestMetrics [3, 2, 1, 5] exArr 7 (.members [1, 2, 3])).map (·.peer) = [3, 1] ∧
     allocate (rawInput [3, 2, 1, 5] exArr 7 (.members [1, 2, 3]) false 1 2 [] [] []) = .ok [1] := by decide
+
+
+/-! ## Round 8 — the allocators and the callers as interpreted structures; stability; excluded peers; Prop reading -/
+
+/-- The model's allocator step IS the interpretation of what the translator read out of today's ascendalloc /
+    descendalloc (`Gen.ascShape`, `Gen.descShape`: which map parameter — by position — is sorted in which direction,
+    concatenated in which order) and of the argument order of `c.allocator.Allocate(...)` in obtainAllocations
+    (`Gen.allocatorCallGroups`), for every input. A swapped concatenation, a flipped direction, swapped parameter
+    names or swapped call arguments change `allocateWith` and this theorem stops checking. -/
+theorem allocate_interprets_gen (i : Input) :
+    allocateWith Gen.ascShape Gen.descShape Gen.allocatorCallGroups i = allocate i :=
+  allocateWith_gen_aux i
+
+/-- hence the interpreted code satisfies every clause on every well-formed input -/
+theorem interpreted_allocators_hold (i : Input) (hw : wf i = true) :
+    holds i (allocateWith Gen.ascShape Gen.descShape Gen.allocatorCallGroups i) = true := by
+  rw [allocate_interprets_gen]; exact allocate_holds i hw
+
+private def exShape : Input :=
+  { desc := false, rmin := 1, rmax := 1, blacklist := [], priority := [2], current := [],
+    peers := [(1, .valid 1), (2, .valid 5), (3, .valid 9)] }
+private def exShape2 : Input := { exShape with rmax := 2, rmin := 2, priority := [] }
+
+/-- candidates before the requested peers (the two `SortNumeric` results concatenated the other way round): refuted -/
+theorem candidates_first_breaks_priority :
+    ∃ i, wf i = true ∧ positive i = true ∧
+      holds i (allocateWith (.concat [⟨.candidates, false⟩, ⟨.priority, false⟩]) Gen.descShape Gen.allocatorCallGroups i) = false :=
+  ⟨exShape, by decide⟩
+
+/-- the ascending allocator sorting one of its groups in descending order: refuted -/
+theorem mixed_direction_breaks_rank :
+    ∃ i, wf i = true ∧ positive i = true ∧
+      holds i (allocateWith (.concat [⟨.priority, false⟩, ⟨.candidates, true⟩]) Gen.descShape Gen.allocatorCallGroups i) = false :=
+  ⟨{ exShape with priority := [] }, by decide⟩
+
+/-- obtainAllocations handing the priority map in the candidates position (and vice versa): refuted -/
+theorem swapped_call_arguments_break_priority :
+    ∃ i, wf i = true ∧ positive i = true ∧
+      holds i (allocateWith Gen.ascShape Gen.descShape [.current, .priority, .candidates] i) = false :=
+  ⟨exShape, by decide⟩
+
+/-- an allocator that forgets one group (returns only the requested peers): the request fails although enough
+    healthy peers are reachable -/
+theorem forgetting_candidates_breaks_reachability :
+    ∃ i, wf i = true ∧ positive i = true ∧
+      holds i (allocateWith (.concat [⟨.priority, false⟩]) Gen.descShape Gen.allocatorCallGroups i) = false :=
+  ⟨exShape2, by decide⟩
+
+example : allocateWith Gen.ascShape Gen.descShape Gen.allocatorCallGroups exShape = .ok [2] ∧
+    allocateWith Gen.ascShape Gen.descShape Gen.allocatorCallGroups exShape2 = .ok [1, 2] := by decide
+
+/-- STABILITY. Any stored allocation that has between min and max healthy, non-excluded holders is a fixed point of
+    allocate(): re-allocating the CID with that list as current holders, under the same metrics and exclusions, returns
+    it verbatim — for every tie-break, both strategies, whatever the priority list. -/
+theorem stable_of_count (i : Input) (out : List Nat) (o : Output) (hw : wf i = true) (hpos : positive i = true)
+    (hc : cCount i out = true) (h : allowed (reallocInput i out i.blacklist) o = true) : o = .ok out :=
+  stable_of_count_aux hw hpos hc o h
+
+/-- IDEMPOTENCE. Allocating again from ANY result the code may produce (same metrics, same exclusions) keeps the
+    allocation: no holder is moved without a cause. -/
+theorem allocate_idempotent (i : Input) (out : List Nat) (o : Output) (hw : wf i = true) (hpos : positive i = true)
+    (h1 : allowed i (.ok out) = true) (h2 : allowed (reallocInput i out i.blacklist) o = true) : o = .ok out :=
+  stable_of_count i out o hw hpos (holds_ok_count hpos (allowed_holds i _ hw h1)) h2
+
+example : wf ex1 = true ∧ positive ex1 = true ∧ allowed ex1 (.ok [0, 3, 2]) = true ∧
+    allocate (reallocInput ex1 [0, 3, 2] ex1.blacklist) = .ok [0, 3, 2] := by decide
+
+/-- the same with a DIFFERENT priority list the second time (a re-pin with other user allocations does not move
+    holders either) -/
+theorem stable_under_new_priorities (i : Input) (out pri : List Nat) (o : Output) (hw : wf i = true)
+    (hpos : positive i = true) (h1 : allowed i (.ok out) = true)
+    (h2 : allowed (reallocInput { i with priority := pri } out i.blacklist) o = true) : o = .ok out :=
+  have hc : cCount i out = true := holds_ok_count hpos (allowed_holds i _ hw h1)
+  stable_of_count { i with priority := pri } out o hw hpos hc h2
+
+/-- EXCLUDED PEERS. An excluded peer is never added, and it survives in an admitted allocation only when the code
+    returns the stored list verbatim, which happens only when min healthy non-excluded holders remain. -/
+theorem blacklisted_only_kept_verbatim (i : Input) (out : List Nat) (f : Nat) (hw : wf i = true)
+    (hpos : positive i = true) (h : allowed i (.ok out) = true) (hb : f ∈ i.blacklist) (hf : f ∈ out) :
+    out = i.current ∧ i.rmin ≤ ((healthyCurrent i).length : Int) :=
+  blacklisted_only_verbatim_aux hw hpos h hb hf
+
+/-- so when fewer than min healthy holders remain, nothing excluded is in the result -/
+theorem blacklisted_dropped_when_below_min (i : Input) (out : List Nat) (hw : wf i = true) (hpos : positive i = true)
+    (h : allowed i (.ok out) = true) (hlt : ((healthyCurrent i).length : Int) < i.rmin) :
+    ∀ f ∈ i.blacklist, f ∉ out := by
+  intro f hb hf
+  have := (blacklisted_only_kept_verbatim i out f hw hpos h hb hf).2
+  omega
+
+private def exBl : Input :=
+  { desc := false, rmin := 2, rmax := 2, blacklist := [1], priority := [], current := [1, 2],
+    peers := [(1, .valid 1), (2, .valid 5), (3, .valid 9)] }
+example : wf exBl = true ∧ positive exBl = true ∧ allocate exBl = .ok [2, 3] ∧
+    allocate { exBl with rmin := 1 } = .ok [1, 2] := by decide
+
+/-! ### repinFromPeer / vacatePeer: the request they prepare -/
+
+/-- today's repinFromPeer clears the allocations, re-submits the very pin of the sweep, excludes exactly the failed
+    peer; vacatePeer re-pins only pins allocated to the peer (regenerated from the AST) -/
+theorem repin_shape_sound :
+    Gen.repinShape = { clearsAllocations := true, blacklistFailed := true, pinsGivenPin := true, vacateGuard := true } := by
+  decide
+
+/-- hence the interpreted re-pin is `Cluster.pin` on the pin without allocations with the failed peer excluded (the
+    `repinOut` of the C10 model), and vacatePeer's guard is membership in the allocations -/
+theorem repin_is_pin_with_failed_excluded (cfg : C04.Cfg) (pre : PinMap) (f : Nat) (pin : Pin) (chosen : List Nat) :
+    repinWith Gen.repinShape cfg pre f pin chosen = C04.pinOp cfg pre { pin with allocs := [] } [f] chosen ∧
+    vacates Gen.repinShape f pin = pin.allocs.contains f := ⟨rfl, rfl⟩
+
+/-- the input allocate() sees in a re-pin: the failed peer IS excluded, the stored holders are the current ones, the
+    pin's own user allocations the priority list -/
+theorem repin_input (cfg : C04.Cfg) (pre : PinMap) (f : Nat) (pin : Pin) (chosen : List Nat) (ai : Input)
+    (h : (repinWith Gen.repinShape cfg pre f pin chosen).alloc = some ai) :
+    f ∈ ai.blacklist ∧ ai.blacklist = [f] ∧ ai.current = ((pre.get pin.cid).map (·.allocs)).getD [] ∧
+    ai.priority.Perm pin.opts.ualloc ∧ ai.peers = cfg.peers := by
+  obtain ⟨a, b, c, d⟩ := repin_input_aux cfg pre f pin chosen ai h
+  exact ⟨by rw [a]; simp, a, b, c, d⟩
+
+/-- RE-PIN, composed: whatever a re-pin away from `f` may answer, `f` is never a NEW holder; it stays only if the
+    stored list is returned verbatim with min other healthy holders; with fewer than min others it is gone, and the
+    result satisfies every clause of the property with `f` excluded. -/
+theorem repin_moves_away_from_failed (cfg : C04.Cfg) (pre : PinMap) (f : Nat) (pin : Pin) (chosen : List Nat) (ai : Input)
+    (hcfg : (cfg.peers.map (·.1)).Nodup)
+    (h : (repinWith Gen.repinShape cfg pre f pin chosen).alloc = some ai) (hpos : positive ai = true)
+    (ha : allowed ai (.ok chosen) = true) :
+    holds ai (.ok chosen) = true ∧
+    (f ∈ chosen → chosen = ((pre.get pin.cid).map (·.allocs)).getD [] ∧ ai.rmin ≤ ((healthyCurrent ai).length : Int)) := by
+  obtain ⟨hb, _, hc, _, hp⟩ := repin_input cfg pre f pin chosen ai h
+  have hw : wf ai = true := by simp only [wf, hp]; exact decide_eq_true hcfg
+  refine ⟨allowed_holds ai _ hw ha, fun hf => ?_⟩
+  have := blacklisted_only_kept_verbatim ai chosen f hw hpos ha hb hf
+  rw [hc] at this; exact this
+
+/-- a re-pin that forgets the exclusion list keeps a holder that should have been replaced: with the failed peer's
+    metric still valid (an alert can precede expiry; PeerRemove vacates a live peer) the stored list is returned as is -/
+theorem dropping_blacklist_keeps_failed_holder :
+    ∃ (i : Input) (f : Nat), wf i = true ∧ positive i = true ∧ f ∈ i.current ∧
+      allocate (reallocInput i i.current []) = .ok i.current ∧
+      (∀ out, allowed (reallocInput i i.current [f]) (.ok out) = true → f ∉ out) :=
+  ⟨{ exBl with blacklist := [] }, 1, by decide, by decide, by decide, by decide, by
+    intro out h hf
+    have := blacklisted_only_kept_verbatim (reallocInput { exBl with blacklist := [] } [1, 2] [1]) out 1
+      (by decide) (by decide) h (by decide) hf
+    exact absurd this.2 (by decide)⟩
+
+/-! ### the Prop-level reading of `holds` -/
+
+/-- the property for an ok answer with positive factors, as a proposition -/
+def HoldsOk (i : Input) (out : List Nat) : Prop :=
+  (i.current.Nodup → out.Nodup) ∧
+  (∀ p ∈ out, p ∈ i.current ∨ usable i p = true) ∧
+  (if ((healthyCurrent i).length : Int) ≤ i.rmax then ∀ p ∈ healthyCurrent i, p ∈ out
+   else (∀ p ∈ out, p ∈ healthyCurrent i) ∧ (out.length : Int) = i.rmax) ∧
+  (i.rmin ≤ (((dedup out).filter (good i)).length : Int) ∧ (((dedup out).filter (good i)).length : Int) ≤ i.rmax) ∧
+  (∀ p ∈ out, p ∈ i.current ∨ p ∈ i.priority ∨ ∀ q, usable i q = true → q ∈ i.priority → q ∈ out) ∧
+  (∀ p ∈ out, p ∈ i.current ∨ ∀ q, usable i q = true →
+      q ∈ out ∨ ¬ (p ∈ i.priority ↔ q ∈ i.priority) ∨ before i.desc (valOf i p) (valOf i q) = true)
+
+/-- `holds` on an ok answer, positive factors, is exactly that proposition (and `usable`, `good` read as stated) -/
+theorem holds_ok_iff (i : Input) (out : List Nat) (hpos : positive i = true) :
+    holds i (.ok out) = true ↔ HoldsOk i out := by
+  have hp : 0 < i.rmin ∧ i.rmin ≤ i.rmax := by simpa [positive] using hpos
+  have hev : (i.rmin == -1 && i.rmax == -1) = false := by
+    simp only [Bool.and_eq_false_iff, beq_eq_false_iff_ne, ne_eq]; left; omega
+  unfold holds clauses HoldsOk
+  simp only [hev, Bool.false_eq_true, if_false, hpos, if_true, List.all_cons, List.all_nil, Bool.and_true,
+    Bool.and_eq_true]
+  refine and_congr ?_ (and_congr ?_ (and_congr ?_ (and_congr ?_ (and_congr ?_ ?_))))
+  · simp [cNodup]; tauto
+  · simp [cAdded]
+  · unfold cKeep; simp only []; split <;> simp
+  · simp [cCount]
+  · simp only [cPriority, List.all_eq_true, Bool.or_eq_true, List.contains_eq_mem, decide_eq_true_eq, mem_usableIds,
+      Bool.not_eq_true', decide_eq_false_iff_not, or_assoc]
+    exact forall₂_congr (fun p _ => or_congr Iff.rfl (or_congr Iff.rfl (forall₂_congr (fun q _ => by tauto))))
+  · simp only [cRank, List.all_eq_true, Bool.or_eq_true, List.contains_eq_mem, decide_eq_true_eq, mem_usableIds,
+      bne_iff_ne, ne_eq, or_assoc]
+    refine forall₂_congr (fun p _ => or_congr Iff.rfl (forall₂_congr (fun q _ => or_congr Iff.rfl (or_congr ?_ Iff.rfl))))
+    by_cases a : p ∈ i.priority <;> by_cases b : q ∈ i.priority <;> simp [a, b]
+
+/-- what "may be added" and "healthy, not excluded" mean, down to the monitor's state of the peer -/
+theorem usable_good_reading (i : Input) (p : Nat) :
+    (usable i p = true ↔ (∃ v, stateOf i p = .valid v) ∧ p ∉ i.blacklist ∧ p ∉ i.current) ∧
+    (good i p = true ↔ (stateOf i p = .nonNumeric ∨ ∃ v, stateOf i p = .valid v) ∧ p ∉ i.blacklist) := by
+  constructor
+  · rw [usable_iff, good_iff]
+    constructor
+    · rintro ⟨⟨_, hb⟩, hv, hc⟩; exact ⟨hv, hb, hc⟩
+    · rintro ⟨⟨v, hv⟩, hb, hc⟩; exact ⟨⟨by rw [hv]; rfl, hb⟩, ⟨v, hv⟩, hc⟩
+  · rw [good_iff]
+    cases hs : stateOf i p <;> simp [MState.healthy]
+
+/-- the error answer and the (−1,−1) answer as propositions -/
+theorem holds_err_iff (i : Input) (hpos : positive i = true) :
+    holds i .err = true ↔ (((healthyCurrent i).length + (usableIds i).length : Nat) : Int) < i.rmin := by
+  have hp : 0 < i.rmin ∧ i.rmin ≤ i.rmax := by simpa [positive] using hpos
+  have hev : (i.rmin == -1 && i.rmax == -1) = false := by
+    simp only [Bool.and_eq_false_iff, beq_eq_false_iff_ne, ne_eq]; left; omega
+  unfold holds clauses
+  simp [hev, hpos, cErr]
+
+theorem holds_everywhere_iff (i : Input) (o : Output) (h : i.rmin = -1 ∧ i.rmax = -1) :
+    holds i o = true ↔ o = .ok [] := by
+  unfold holds clauses
+  simp [h.1, h.2]
+
+example : HoldsOk ex1 [0, 3, 1] := (holds_ok_iff ex1 _ (by decide)).1 (by decide)
+
+/-- every admitted ok answer satisfies the property as a proposition -/
+theorem allowed_HoldsOk (i : Input) (out : List Nat) (hw : wf i = true) (hpos : positive i = true)
+    (h : allowed i (.ok out) = true) : HoldsOk i out :=
+  (holds_ok_iff i out hpos).1 (allowed_holds i _ hw h)
 
 /-! ### The source still reads as the model was transcribed (regenerated on every run) -/
 
